@@ -103,8 +103,12 @@ package crdt
 //@   ensures [only-undecodable-skipped] rpcN == old(rpcN) ==> err != nil
 //@   modifies rpcN, rpcLastSvc, rpcLastMethod, heap(api.Pin)
 
+// the key of a deleted entry is the state's key encoding of the CID (binary CID bytes under the namespace, see
+// dsstate.State.key): the hook must decode it with the inverse, for CIDs of every version
 //@ closure Consensus.setup#3
 //@   property C02
+//@   at_call rpc.Client.CallContext assert [untracks-the-cid-the-key-encodes] pin != nil && pin.Cid == libfn("cid.Cast", 0, libfn("dshelp.BinaryFromDsKey", 0, k))
+//@   ensures [only-undecodable-skipped] rpcN == old(rpcN) ==> libfn("dshelp.BinaryFromDsKey", 1, k) != nil || libfn("cid.Cast", 1, libfn("dshelp.BinaryFromDsKey", 0, k)) != nil
 //@   ensures rpcN == old(rpcN) || (rpcN == old(rpcN) + 1 && rpcLastSvc == "PinTracker" && rpcLastMethod == "Untrack")
 //@   modifies rpcN, rpcLastSvc, rpcLastMethod, heap(api.Pin)
 
